@@ -34,9 +34,16 @@ def reached_paths(m, flow, mapper, kind, mm):
     return strip_markers(s.rec_paths("expr")), s
 
 
+_DERIVED_ATTRS = {"shape", "ndim", "dtype", "size", "name", "tags", "axes", "T", "real",
+                  "imag", "non_equality_tags"}
+
+
 def covers(path, reached):
     for q in reached:
-        if q[:len(path)] == path:
+        # the child itself, or an element / entry of it; NOT something computed from
+        # it (recursing into child.shape is not recursing into the child)
+        if q[:len(path)] == path and all(
+                e in ("<named>", "_data", "_container", "*") for e in q[len(path):]):
             return True
         if q and q[-1] == "*" and path[:len(q) - 1] == q[:-1]:
             return True     # reflective getattr over all fields
@@ -786,6 +793,58 @@ def r_conditional_passthrough(c):
         raise AnalysisError(f"only {n} conditional pass-throughs found (floor 2)")
 
 
+def r_component_guard(c):
+    """components of a shape / index tuple (and other loop elements) are recursed into
+    whenever they are arrays: the test in front of `self.rec(v)` on a loop element v
+    is `isinstance(v, Array)` and nothing narrower (`... and v.ndim == 0`, a tag test,
+    a type of input): a narrower test silently leaves array-valued components, and
+    everything reachable only through them, out of every traversal built on the helper"""
+    m = c.model
+    n = 0
+    mods = [x for x in m.modules if x.startswith("pytato.transform")
+            or x in ("pytato.analysis", "pytato.codegen", "pytato.distributed.partition")]
+    for mi, fd in m.all_functions(modules=mods):
+        bound = {}
+        for l in ast.walk(fd):
+            if isinstance(l, (ast.For, ast.comprehension)):
+                for t in ast.walk(l.target):
+                    if isinstance(t, ast.Name):
+                        bound[t.id] = l
+        for call in ast.walk(fd):
+            if not (isinstance(call, ast.Call) and ast.unparse(call.func) in ("self.rec",)
+                    and call.args and isinstance(call.args[0], ast.Name)
+                    and call.args[0].id in bound):
+                continue
+            v = call.args[0].id
+            guards = []
+            ch, par = call, call._parent
+            while par is not None and par is not fd:
+                if isinstance(par, ast.If) and any(ch is x for x in par.body):
+                    guards.append(par.test)
+                if isinstance(par, ast.IfExp) and ch is par.body:
+                    guards.append(par.test)
+                if isinstance(par, (ast.GeneratorExp, ast.ListComp, ast.SetComp, ast.DictComp)):
+                    for g in par.generators:
+                        if g is bound[v]:
+                            guards += g.ifs
+                ch, par = par, par._parent
+            guards = [g for g in guards if any(isinstance(x, ast.Name) and x.id == v
+                                               for x in ast.walk(g))]
+            if not guards:
+                continue
+            n += 1
+            ok = all(ast.unparse(g) in (f"isinstance({v}, Array)",
+                                        f"isinstance({v}, (Array,))") for g in guards)
+            qn = m.qualname(fd).replace("pytato.", "", 1)
+            c.check(ok, "R13-CHILDREN-OVR", qn,
+                    f"recursed-into-whenever-an-array:{v}", m.loc(mi, call),
+                    f"`self.rec({v})` is guarded by `{' and '.join(ast.unparse(g) for g in guards)}`, "
+                    f"which is narrower than `isinstance({v}, Array)`: array-valued "
+                    "components that fail the extra condition are never visited")
+    if n < 4:
+        raise AnalysisError(f"only {n} guarded component recursions found (floor 4)")
+
+
 def r_cache_answer(c):
     """sharing is preserved only if a traversal continues with what the cache hands
     back: `add` may answer with an equal object that was cached earlier, and that
@@ -835,7 +894,7 @@ SPEC = Spec(
     prop="C13",
     rules=[r_children, r_children_overrides, r_once, r_key, r_collision, r_clone,
            r_eq_memo, r_state, r_shared_or, r_visit_tables, r_conditional_passthrough,
-           r_cache_answer],
+           r_cache_answer, r_component_guard],
     floors={"R13-CHILDREN": 212, "R13-ONCE": 14, "R13-KEY": 20, "R13-COLLISION": 8,
             "R13-DOUBLE-CACHE": 7, "R13-CHILDREN-OVR": 20, "R13-CLONE": 12,
             "R13-EQ-MEMO": 22, "R13-STATE": 7},
